@@ -6,6 +6,7 @@ CONSTANTS Mode = "chain"
           Wait = 2
           ForkAt = 204
           DepositAt = 205
+          LeadZ = 0
           Heights = {199, 203, 204, 205, 206, 207}
           EmitOn = TRUE
 INVARIANT PropC23
